@@ -1,7 +1,8 @@
 --------------------------- MODULE SpecLifecycle ---------------------------
 \* Life cycle of mjSpec / mjModel / mjData objects through the compiler API (src/user/user_api.cc, user_model.cc):
 \*   mj_compile, mj_copySpec, mj_copyModel, spec edits (mjs_* setters, mjs_add*, mjs_delete),
-\*   compiler.usethread on/off, mj_recompile, plus the user writing the simulation state and mj_makeData.
+\*   compiler.usethread on/off, mj_recompile, plus the user writing the simulation state and mj_makeData, and the
+\*   process-global ASSET CACHE (mj_getCache / mj_setCacheCapacity / mj_clearCache) that file meshes go through.
 \*
 \* A spec slot holds a CONTENT = the base description and the sequence of edits applied to it, a flag `thr`
 \* (multithreaded asset compiler) and `last` = the model slot its internal addresses refer to (its last compile).
@@ -13,6 +14,11 @@
 \*        (joint: qpos, qvel; actuator: all its ctrl inputs and its act; mocap body: pose), exactly the values the
 \*        data held; elements created by the edits start from the model defaults.  `obs.st` publishes for every
 \*        element a token: 0 = default, v > 0 = the values written by the v-th SetState.
+\*   CacheStateIrrelevant : the asset cache is hidden state.  Every base has three FILE meshes (served from a VFS),
+\*        two of them loading the SAME file with different inertia modes; a cache entry is keyed by the file and
+\*        remembers the properties it was built with; a compile hits (same properties) or misses and replaces the
+\*        entry.  model[m].how records under which cache state (enabled?, number of hits) the slot was compiled:
+\*        models of equal content are in one class WHATEVER `how` is - cache disabled, cold, warm, threaded.
 \* The state-carrying elements of a content are given by Elements(c) (the harness builds the same objects):
 \*   base  "plain" : joints j1 (hinge) j2 (slide) j3 (free) j4 (hinge, after the free joint: qpos and dof addresses differ), actuators a1 (filter dynamics) a2, muscles u1 u2, mocap body mb
 \*   base  "multi" : the same plus a0 = PID actuator with TWO control inputs, declared before a1, a2
@@ -30,13 +36,14 @@ CONSTANTS NS, NM,      \* spec slots 1..NS, model slots 1..NM
 
 VARIABLES spec,    \* [1..NS -> NoSpec | [c : content, thr : BOOLEAN, last : 0..NM]]
           model,   \* [1..NM -> NoModel | [c : content]]
+          cache,   \* [on : BOOLEAN, ent : [Files -> properties | "none"]]   the global asset cache
           data,    \* NoData | [m : model slot, time : token, st : [element -> token]]   (one mjData)
           nset,    \* number of SetState so far (tokens are 1, 2, ...)
           nops, ev, obs
-vars == <<spec, model, data, nset, nops, ev, obs>>
+vars == <<spec, model, cache, data, nset, nops, ev, obs>>
 
 NoSpec  == [c |-> << >>]
-NoModel == [c |-> << >>]
+NoModel == [c |-> << >>, how |-> << >>]
 NoData  == [m |-> 0]
 Content(b, es) == <<b, es>>
 BaseOf(c)  == c[1]
@@ -48,22 +55,38 @@ BaseElements(b) == {"j1", "j2", "j3", "j4", "a1", "a2", "u1", "u2", "mb"} \cup (
 Elements(c) == ((BaseElements(BaseOf(c)) \cup (IF Has(c, "addchild") THEN {"jx", "ax"} ELSE {}))
                 \ (IF Has(c, "delact") THEN {FirstAct(BaseOf(c))} ELSE {}))
 
+\* file meshes of every base, in list order: <<file, inertia mode>>
+FileMeshes == << <<"L", "exact">>, <<"L", "legacy">>, <<"O", "legacy">> >>
+Files == {FileMeshes[i][1] : i \in 1..Len(FileMeshes)}
+ColdCache == [on |-> TRUE, ent |-> [f \in Files |-> "none"]]
+\* one compile: every file mesh looks its file up; a hit needs the same properties, a miss rebuilds and replaces the entry
+RECURSIVE CacheFold(_, _)
+CacheFold(ent, k) == IF k > Len(FileMeshes) THEN ent
+                     ELSE LET f == FileMeshes[k][1]  p == FileMeshes[k][2]
+                          IN CacheFold(IF ent[f] = p THEN ent ELSE [ent EXCEPT ![f] = p], k + 1)
+RECURSIVE CacheHits(_, _)
+CacheHits(ent, k) == IF k > Len(FileMeshes) THEN 0
+                     ELSE LET f == FileMeshes[k][1]  p == FileMeshes[k][2]
+                          IN (IF ent[f] = p THEN 1 ELSE 0) + CacheHits(IF ent[f] = p THEN ent ELSE [ent EXCEPT ![f] = p], k + 1)
+AfterCompile(ch) == IF ch.on THEN [ch EXCEPT !.ent = CacheFold(ch.ent, 1)] ELSE ch
+How(ch) == <<ch.on, IF ch.on THEN CacheHits(ch.ent, 1) ELSE 0>>
 Live(x) == x.c # << >>
 \* partition of the live model slots by content: cls[m] = smallest slot with the same content (0 = empty slot)
 Classes(md) == [m \in 1..NM |-> IF ~Live(md[m]) THEN 0
                                 ELSE CHOOSE k \in 1..NM : /\ Live(md[k]) /\ md[k].c = md[m].c
                                                           /\ \A j \in 1..(k - 1) : ~(Live(md[j]) /\ md[j].c = md[m].c)]
 ObsOf(md, d) == [cls |-> Classes(md),
+                 how |-> [m \in 1..NM |-> md[m].how],      \* cache state each slot was compiled under (for diagnostics)
                  dm  |-> d.m,
                  time |-> IF d.m = 0 THEN 0 ELSE d.time,
                  st  |-> IF d.m = 0 THEN << >> ELSE d.st]
 
 \* every behaviour starts after  mj_makeSpec + base description (slot 1), mj_compile -> model 1, mj_makeData
 Start(b, t) ==
-  LET md == [m \in 1..NM |-> IF m = 1 THEN [c |-> Content(b, << >>)] ELSE NoModel]
+  LET md == [m \in 1..NM |-> IF m = 1 THEN [c |-> Content(b, << >>), how |-> How(ColdCache)] ELSE NoModel]
       dt == [m |-> 1, time |-> 0, st |-> [e \in Elements(Content(b, << >>)) |-> 0]]
   IN /\ spec = [s \in 1..NS |-> IF s = 1 THEN [c |-> Content(b, << >>), thr |-> t, last |-> 1] ELSE NoSpec]
-     /\ model = md /\ data = dt /\ nset = 0 /\ nops = 0
+     /\ model = md /\ cache = AfterCompile(ColdCache) /\ data = dt /\ nset = 0 /\ nops = 0
      /\ ev = [op |-> "init", base |-> b, thr |-> t] /\ obs = ObsOf(md, dt)
 Init == \E b \in Bases, t \in InitThr : Start(b, t)
 Step == nops < MaxOps /\ nops' = nops + 1
@@ -74,29 +97,30 @@ NewSpec(s, b, t) ==
   /\ Step /\ ~Live(spec[s])
   /\ spec' = [spec EXCEPT ![s] = [c |-> Content(b, << >>), thr |-> t, last |-> 0]]
   /\ ev' = [op |-> "newspec", s |-> s, base |-> b, thr |-> t]
-  /\ UNCHANGED <<model, data, nset>> /\ Publish
+  /\ UNCHANGED <<model, cache, data, nset>> /\ Publish
 \* mj_copySpec (the copy has never been compiled itself)
 CopySpec(s, s2) ==
   /\ Step /\ Live(spec[s]) /\ ~Live(spec[s2])
   /\ spec' = [spec EXCEPT ![s2] = [spec[s] EXCEPT !.last = 0]]
   /\ ev' = [op |-> "copyspec", s |-> s, s2 |-> s2]
-  /\ UNCHANGED <<model, data, nset>> /\ Publish
+  /\ UNCHANGED <<model, cache, data, nset>> /\ Publish
 \* an edit through the mjs_* API
 Edit(s, e) ==
   /\ Step /\ Live(spec[s]) /\ ~Has(spec[s].c, e) /\ Len(EditsOf(spec[s].c)) < MaxEdits
   /\ spec' = [spec EXCEPT ![s].c = Content(BaseOf(@), Append(EditsOf(@), e))]
   /\ ev' = [op |-> "edit", s |-> s, e |-> e]
-  /\ UNCHANGED <<model, data, nset>> /\ Publish
+  /\ UNCHANGED <<model, cache, data, nset>> /\ Publish
 \* compiler.usethread := ~usethread
 ToggleThreads(s) ==
   /\ Step /\ Live(spec[s])
   /\ spec' = [spec EXCEPT ![s].thr = ~@]
   /\ ev' = [op |-> "thread", s |-> s, thr |-> ~spec[s].thr]
-  /\ UNCHANGED <<model, data, nset>> /\ Publish
+  /\ UNCHANGED <<model, cache, data, nset>> /\ Publish
 \* mj_compile into a model slot that the data does not use (a fresh mjModel)
 Compile(s, m) ==
   /\ Step /\ Live(spec[s]) /\ data.m # m
-  /\ model' = [model EXCEPT ![m] = [c |-> spec[s].c]]
+  /\ model' = [model EXCEPT ![m] = [c |-> spec[s].c, how |-> How(cache)]]
+  /\ cache' = AfterCompile(cache)
   \* every spec whose addresses referred to the overwritten slot loses that reference
   /\ spec' = [x \in 1..NS |-> IF x = s THEN [spec[s] EXCEPT !.last = m]
                               ELSE IF Live(spec[x]) /\ spec[x].last = m THEN [spec[x] EXCEPT !.last = 0] ELSE spec[x]]
@@ -108,25 +132,34 @@ CopyModel(m, m2) ==
   /\ model' = [model EXCEPT ![m2] = model[m]]
   /\ spec' = [x \in 1..NS |-> IF Live(spec[x]) /\ spec[x].last = m2 THEN [spec[x] EXCEPT !.last = 0] ELSE spec[x]]
   /\ ev' = [op |-> "copymodel", m |-> m, m2 |-> m2]
-  /\ UNCHANGED <<data, nset>> /\ Publish
+  /\ UNCHANGED <<cache, data, nset>> /\ Publish
+\* mj_setCacheCapacity(0) (disables and empties the cache), default capacity again, mj_clearCache
+CacheOp(k) ==
+  /\ Step
+  /\ cache' = IF k = "off" THEN [on |-> FALSE, ent |-> [f \in Files |-> "none"]]
+              ELSE IF k = "on" THEN [cache EXCEPT !.on = TRUE]
+              ELSE [cache EXCEPT !.ent = [f \in Files |-> "none"]]
+  /\ ev' = [op |-> "cache", k |-> k]
+  /\ UNCHANGED <<spec, model, data, nset>> /\ Publish
 \* mj_makeData for a model (replaces the single mjData): everything at the defaults
 MakeData(m) ==
   /\ Step /\ Live(model[m])
   /\ data' = [m |-> m, time |-> 0, st |-> [e \in Elements(model[m].c) |-> 0]]
   /\ ev' = [op |-> "makedata", m |-> m]
-  /\ UNCHANGED <<spec, model, nset>> /\ Publish
+  /\ UNCHANGED <<spec, model, cache, nset>> /\ Publish
 \* the user overwrites time, qpos, qvel, act, ctrl, mocap pose with fresh values
 SetState ==
   /\ Step /\ data.m # 0
   /\ nset' = nset + 1
   /\ data' = [data EXCEPT !.time = nset + 1, !.st = [e \in DOMAIN data.st |-> nset + 1]]
   /\ ev' = [op |-> "setstate", v |-> nset + 1]
-  /\ UNCHANGED <<spec, model>> /\ Publish
+  /\ UNCHANGED <<spec, model, cache>> /\ Publish
 \* mj_recompile(s, m, d): m is the model of the spec's last compile and d is its data
 Recompile(s) ==
   /\ Step /\ Live(spec[s]) /\ spec[s].last # 0 /\ data.m = spec[s].last
   /\ LET m == spec[s].last  c2 == spec[s].c IN
-     /\ model' = [model EXCEPT ![m] = [c |-> c2]]
+     /\ model' = [model EXCEPT ![m] = [c |-> c2, how |-> How(cache)]]
+     /\ cache' = AfterCompile(cache)
      /\ data' = [data EXCEPT !.st = [e \in Elements(c2) |-> IF e \in DOMAIN data.st THEN data.st[e] ELSE 0]]
      /\ ev' = [op |-> "recompile", s |-> s, m |-> m, thr |-> spec[s].thr]
   /\ UNCHANGED <<spec, nset>> /\ Publish
@@ -141,7 +174,8 @@ DoCopyModel == On("copymodel") /\ \E m, m2 \in 1..NM : CopyModel(m, m2)
 DoMakeData  == On("makedata")  /\ \E m \in 1..NM : MakeData(m)
 DoSetState  == On("setstate")  /\ SetState
 DoRecompile == On("recompile") /\ \E s \in 1..NS : Recompile(s)
-Next == DoNewSpec \/ DoCopySpec \/ DoEdit \/ DoThreads \/ DoCompile \/ DoCopyModel \/ DoMakeData \/ DoSetState \/ DoRecompile
+DoCache     == On("cache")     /\ \E k \in {"off", "on", "clear"} : CacheOp(k)
+Next == DoNewSpec \/ DoCopySpec \/ DoEdit \/ DoThreads \/ DoCompile \/ DoCopyModel \/ DoMakeData \/ DoSetState \/ DoRecompile \/ DoCache
 Spec == Init /\ [][Next]_vars
 
 \* ---- properties ---------------------------------------------------------------------------------
@@ -155,6 +189,12 @@ LastIsOwn == \A s \in 1..NS : (Live(spec[s]) /\ spec[s].last # 0) =>
                  (Live(model[spec[s].last]) /\ BaseOf(model[spec[s].last].c) = BaseOf(spec[s].c))
 \* the data always carries exactly the elements of its model
 DataMatchesModel == data.m # 0 => (Live(model[data.m]) /\ DOMAIN data.st = Elements(model[data.m].c))
+\* the cache is hidden state: models of one content form one class whatever cache state each was compiled under,
+\* and cache operations touch no model, spec or data
+CacheStateIrrelevant ==
+  /\ \A m1, m2 \in 1..NM : (Live(model[m1]) /\ Live(model[m2]) /\ model[m1].c = model[m2].c) => obs.cls[m1] = obs.cls[m2]
+  /\ cache.on \/ \A f \in Files : cache.ent[f] = "none"
+CacheOpsArePure == [][ev'.op = "cache" => (model' = model /\ spec' = spec /\ data' = data /\ obs' = obs)]_vars
 \* copies and thread toggles never change what a later compile produces
 CopyKeepsContent == [][ev'.op = "copyspec" => spec'[ev'.s2].c = spec[ev'.s].c]_vars
 ThreadsKeepContent == [][ev'.op = "thread" => spec'[ev'.s].c = spec[ev'.s].c /\ model' = model]_vars
@@ -172,8 +212,10 @@ PlainOnly == {"plain"}
 MultiOnly == {"multi"}
 AllEdits  == {"size", "mesh", "addchild", "delact"}
 TwoEdits  == {"addchild", "delact"}
-AllOps    == {"newspec", "copyspec", "edit", "thread", "compile", "copymodel", "makedata", "setstate", "recompile"}
+AllOps    == {"newspec", "copyspec", "edit", "thread", "compile", "copymodel", "makedata", "setstate", "recompile", "cache"}
+CacheOps  == {"thread", "compile", "copymodel", "recompile", "cache"}
+CacheOpsQ == {"compile", "recompile", "cache"}
 RecOps    == {"edit", "setstate", "recompile"}
 NoThr     == {FALSE}
-ViewNoEv  == <<spec, model, data, nset, nops>>
+ViewNoEv  == <<spec, model, cache, data, nset, nops>>
 =============================================================================
